@@ -32,6 +32,11 @@ CLAIMED = {
    text="Seeded histories of 4-30 requests (static, dynamic, 404, 405, aborted, erroring, panicking, writer/request-swapping, re-dispatching through HandleContext) where the simulated pool hands the dirtiest free context to the next request; every handler's observation of the context and the whole outcome must equal those of the same request as first request on a fresh identical router; the pool checks that no context is released twice. Sampling, not enumeration.",
    note="Reuse is real and measured by object identity. Observations use the public Context API only (Params, Data(), Errors, IsAborted, StatusCode, Length, Req, RawWriter, Resp type).",
    ref="DESIGN.md §4.7"),
+ "C14": dict(
+   technique="deterministic simulation: seeded cache-operation histories vs a sequential LRU model (operation by operation incl. recency order through a verif accessor); concurrent histories under the seeded scheduler checked for linearizability with porcupine and under the race detector; router-level request histories",
+   text="Component level: seeded Set/Get/Has/Delete/Len histories (10-80 operations, capacity 0-4 or 1000, six keys, unique values) compared after every operation - return value and recency order - with a list model; 2-4 concurrent clients with yields before every lock acquisition, invocation/return stamped with the simulator's event sequence number, checked with porcupine against the same model plus a final recency snapshot, and executed in the -race build. Router level: after a request resolved to a dynamic route the most recent cache key must be exactly method+path, and an immediate repeat must be a cache hit with no store. Sampling, not enumeration.",
+   note="Whether Has counts as a read is not stated: both readings are accepted, but one of them must explain the whole history. HEAD requests may be cached under their GET fallback. Router-level paths are generated already normalised (normalisation is C11). Porcupine timeouts are counted as inconclusive in the evidence, never reported.",
+   ref="DESIGN.md §4.8"),
 }
 
 NA = {
@@ -47,7 +52,7 @@ NA = {
  "C19": "pure encoders over values and headers.",
  "C20": "pure functions of headers, method and wrapper list.",
 }
-PENDING = {k: "check not yet built at this commit (claimed in DESIGN.md §4; under construction)" for k in ["C04","C05","C14","C16"]}
+PENDING = {k: "check not yet built at this commit (claimed in DESIGN.md §4; under construction)" for k in ["C04","C05","C16"]}
 
 def main():
     checks = []
